@@ -214,6 +214,8 @@ func c01Gen(tier string, emit func(any)) {
 		{&model.Change{Kind: "expr", Meta: xm, Lines: model.L("-foo(x)", "+mark(x)")}, []string{"foo(a + b)", "foo(a, b)", "foo(xs...)", "w.foo(a)", "foo(foo(a))"}, gen.ExprContexts()},
 		{&model.Change{Kind: "expr", Meta: xm, Lines: model.L("-foo(x, x)", "+mark(x)")}, []string{"foo(a, a)", "foo(a, b)", "foo((a), a)", "foo(g(b...), g(b))", "foo(g(b), g(b...))", "foo(g(b...), g(b...))",
 			"foo(func() { type T = int }, func() { type T int })", "foo(func() { var (\n\t\tv int\n\t) }, func() { var v int })", "foo(func(a ...int) {}, func(a int) {})", "foo([]int{}, [...]int{})", "foo(<-ch, ch)", "foo(chan<- int(nil), chan int(nil))"}, gen.ExprContexts()},
+		{&model.Change{Kind: "expr", Meta: xm, Lines: model.L("-foo(DOTS_1, x, x)", "+mark(x)")}, []string{"foo(1, 1)", "foo(1, 1, 1)", "foo(a, b, b, b)", "foo(a, b, b)", "foo(b, b, a)", "foo(1, 2, 1, 1)", "foo(1)"}, gen.ExprContexts()[:8]},
+		{&model.Change{Kind: "stmts", Meta: xm, Lines: model.L("-use(x)", "-use(x)", "+mark(x)")}, []string{"use(1)\n\tuse(1)", "use(1)\n\tuse(1)\n\tuse(1)", "use(2)\n\tuse(1)\n\tuse(1)", "use(1)\n\tuse(2)\n\tuse(2)\n\tuse(2)"}, gen.StmtContexts()[:6]},
 		{&model.Change{Kind: "expr", Meta: xm, Lines: model.L("-x.sel", "+mark(x)")}, []string{"v.sel", "v.sel2", "v.w.sel", "v.sel.w"}, gen.ExprContexts()},
 		{&model.Change{Kind: "expr", Meta: xm, Lines: model.L("-x + 1", "+mark(x)")}, []string{"v + 1", "v - 1", "1 + v", "v + 1 + 1", "(v + 1)"}, gen.ExprContexts()},
 		{&model.Change{Kind: "stmts", Meta: xm, Lines: model.L("-v = foo(x)", "+v = mark(x)")}, []string{"v = foo(1)", "v := foo(1)", "v = foo(1, 2)", "w = foo(1)", "v, w = foo(1)", "v = foo(1)\n\tv = foo(2)"}, gen.StmtContexts()},
@@ -282,6 +284,20 @@ func c01Gen(tier string, emit func(any)) {
 				emit(&MCase{Change: c1, Then: c2, File: "package p\n\nfunc _() {\n\t" + strings.Join(s, "\n\t") + "\n}\n", Tag: fmt.Sprintf("d-generated/%d.%d", i, j)})
 			}
 		}
+	}
+	// (e) an inadmissible site must not keep the other sites of the file from being rewritten
+	unwrap := &model.Change{Kind: "expr", Meta: xm, Lines: model.L("-trace(x)", "+x")}
+	var siteKinds []string
+	for _, slot := range []string{"defer %s", "go %s", "use(%s)", "%s"} {
+		for _, fl := range []string{"cleanup()", "cleanup", "<-done"} {
+			siteKinds = append(siteKinds, fmt.Sprintf(slot, "trace("+fl+")"))
+		}
+	}
+	for _, sq := range seqs(siteKinds, 3) {
+		if len(sq) < 2 {
+			continue
+		}
+		emit(&MCase{Change: unwrap, File: "package p\n\nfunc _() {\n\t" + strings.Join(sq, "\n\t") + "\n}\n", Tag: fmt.Sprintf("e-inadmissible-among-sites/%d", len(sq))})
 	}
 	// (c) multiplicity and nesting — expressions
 	ech := &model.Change{Kind: "expr", Meta: xm, Lines: model.L("-foo(x)", "+mark(x)")}
